@@ -21,9 +21,9 @@ import (
 
 type scanCase struct {
 	Seed      int64
-	Rows      []string   // row keys present
-	CellsPer  []int      // cells per row
-	Bounds    []string   // region boundaries
+	Rows      []string // row keys present
+	CellsPer  []int    // cells per row
+	Bounds    []string // region boundaries
 	Start     string
 	Stop      string
 	Reversed  bool
